@@ -103,7 +103,9 @@ Definition kids_post (s : sst) (s' : sst) : Prop :=
   Inv (sr s') /\ rbuf (sr s') = rbuf (sr s) /\ rpos (sr s) <= rpos (sr s') /\
   T (scost s') <= T (scost s) + 2 * (rpos (sr s') - rpos (sr s)) + 3.
 
-Ltac fin := unfold box_post, kids_post, Inv, rlen in *; repeat split; try congruence; try lia; try (intros; discriminate).
+Ltac fin := repeat match goal with x := _ |- _ => subst x end;
+  unfold box_post, kids_post in *; cbn [scharge sr scost] in *; unfold Inv, rlen in *;
+  repeat split; try congruence; try lia; try (intros; discriminate).
 
 Lemma sr_loops : forall fuel,
   (forall sp s, Inv (sr s) ->
@@ -126,7 +128,7 @@ Proof.
     assert (HIs : Inv (sr s)) by exact HI.
     destruct (decode_header_sr_spec s HIs) as [rh [s1 [Eh [NPh [I1 [B1 [P1 [C1 Q1]]]]]]]]. rewrite Eh.
     assert (TC1 : T (scost s1) = T (scost s0) + 1) by (rewrite C1; subst s; cbn [scharge scost]; rewrite T_tick; lia).
-    change (sr s) with (sr s0) in *. clearbody s. clear C1 Eh.
+    change (sr s) with (sr s0) in *. clear C1 Eh.
     destruct rh as [h| | |]; try contradiction.
     2:{ eexists _, _. split; [reflexivity|]. split; [discriminate|]. split; [discriminate|]. fin. }
     destruct (Q1 h eq_refl) as [Q1a [Q1b Q1c]]. clear Q1.
@@ -146,7 +148,6 @@ Proof.
         as [rk [s2 [Ek [NPk [Fk [I2 [B2 [P2 C2]]]]]]]]. rewrite Ek.
       assert (HF : rem s0 < Z.of_nat (S f) -> rem s1' + 1 < Z.of_nat f).
       { unfold rem, rlen. change (sr s1') with (sr s1). rewrite B1. lia. }
-      change (sr s1') with (sr s1) in *. clearbody s1'.
       destruct rk; try contradiction.
       * eexists _, _. split; [reflexivity|]. split; [discriminate|]. split; [discriminate|]. fin.
       * eexists _, _. split; [reflexivity|]. split; [discriminate|]. split; [discriminate|]. fin.
@@ -160,7 +161,6 @@ Proof.
         as [rk [s2 [Ek [NPk [Fk [I2 [B2 [P2 C2]]]]]]]]. rewrite Ek.
       assert (HF : rem s0 < Z.of_nat (S f) -> rem s1' + 1 < Z.of_nat f).
       { unfold rem, rlen. change (sr s1') with (sr s1). rewrite B1. lia. }
-      change (sr s1') with (sr s1) in *. clearbody s1'.
       destruct rk; try contradiction.
       * destruct (accerr && rerr (sr s2)).
         -- eexists _, _. split; [reflexivity|]. split; [discriminate|]. split; [discriminate|]. fin.
@@ -179,7 +179,7 @@ Proof.
     assert (R0 : rem s0 = rem s) by reflexivity.
     assert (HI0 : Inv (sr s0)) by exact HI.
     destruct (IHb pos s0 HI0) as [rb [s1 [Eb [NPb [Fb [I1 [B1 [P1 [C1 Q1]]]]]]]]]. rewrite Eb.
-    change (sr s0) with (sr s) in *. clearbody s0.
+    change (sr s0) with (sr s) in *.
     destruct rb as [child| | |]; try contradiction.
     + destruct (Q1 child eq_refl) as [Q1a Q1b]. clear Q1.
       set (s2 := scharge (allocn 1) s1).
@@ -189,14 +189,297 @@ Proof.
       * destruct (IHk sp (addu64 pos (tsize child)) endPos initPos (child :: acc) s2 I2')
           as [rk [s3 [Ek [NPk [Fk [I3 [B3 [P3 C3]]]]]]]]. rewrite Ek.
         assert (R2 : rem s2 + 8 <= rem s) by (unfold rem, rlen; change (sr s2) with (sr s1); rewrite B1; lia).
-        change (sr s2) with (sr s1) in *. clearbody s2.
         eexists _, _. split; [reflexivity|]. split; [assumption|].
         split; [intros Hf; apply Fk; lia|]. fin.
-      * change (sr s2) with (sr s1) in *. clearbody s2.
-        eexists _, _. split; [reflexivity|]. split; [discriminate|]. split; [discriminate|]. fin.
+      * eexists _, _. split; [reflexivity|]. split; [discriminate|]. split; [discriminate|]. fin.
     + eexists _, _. split; [reflexivity|]. split; [discriminate|]. split; [discriminate|]. fin.
     + eexists _, _. split; [reflexivity|]. split; [discriminate|].
       split; [intros Hf; exfalso; apply Fb; [lia|reflexivity]|]. fin.
 Qed.
 
 End SR.
+
+(* ---------------------------------------------------------------- io.Reader path *)
+Definition ip (s : ist) : Z := Z.of_N (ipos s).
+Definition il (s : ist) : Z := Z.of_N (lenN (ibuf s)).
+Definition IInv (s : ist) : Prop := ip s <= il s /\ il s < two63.
+
+Lemma length_firstn_skipn (l : list N) a b : (length (firstn a (skipn b l)) <= length l)%nat.
+Proof. rewrite firstn_length, skipn_length. lia. Qed.
+
+Lemma read_full_spec s : IInv s ->
+  exists r s', read_full 8 s = (r, s') /\ ibuf s' = ibuf s /\ icost s' = icost s /\ ip s <= ip s' <= il s /\
+    match r with RFOk bs => ip s' = ip s + 8 /\ length bs = 8%nat | _ => True end.
+Proof.
+  intros [H1 H2]. unfold read_full, iavail, ip, il in *. 
+  destruct (lenN (ibuf s) - ipos s =? 0)%N eqn:E0.
+  { eexists _, _. split; [reflexivity|]. repeat split; lia. }
+  destruct (lenN (ibuf s) - ipos s <? 8)%N eqn:E1.
+  { eexists _, _. split; [reflexivity|]. cbn. repeat split; lia. }
+  eexists _, _. split; [reflexivity|]. cbn. repeat split; try lia.
+  rewrite firstn_length, skipn_length. unfold lenN in *. lia.
+Qed.
+
+Definition hout_hdr (r : res hout) (h : hdr) : Prop := r = Ok (HHdr h).
+
+Lemma decode_header_spec s : IInv s ->
+  exists r s', decode_header s = (r, s') /\ np r /\ ibuf s' = ibuf s /\ ip s <= ip s' <= il s /\
+    T (icost s') <= T (icost s) + 16 /\
+    (forall h, r = Ok (HHdr h) -> ip s + 8 <= ip s' /\ hdr_wf h).
+Proof.
+  intros HI. unfold decode_header.
+  set (s0 := icharge (allocn 8) s).
+  assert (HI0 : IInv s0) by exact HI.
+  assert (T0 : T (icost s0) = T (icost s) + 8) by (subst s0; cbn [icharge icost]; rewrite T_alloc; lia).
+  destruct (read_full_spec s0 HI0) as [r [s1 [E1 [B1 [C1 [P1 Q1]]]]]]. rewrite E1.
+  change (ip s0) with (ip s) in *. change (il s0) with (il s) in *. change (ibuf s0) with (ibuf s) in *.
+  destruct r as [buf| |].
+  2:{ eexists _, _. split; [reflexivity|]. rewrite C1. repeat split; try exact I; try assumption; try lia; intros; discriminate. }
+  2:{ eexists _, _. split; [reflexivity|]. rewrite C1. repeat split; try exact I; try assumption; try lia; intros; discriminate. }
+  destruct Q1 as [Q1 L1].
+  destruct (gslice_ok buf 0 4) as [b4 H4]; try (unfold zlen; lia). rewrite H4.
+  destruct (gslice_ok buf 4 8) as [nm H8]; try (unfold zlen; lia). rewrite H8.
+  assert (HI1 : IInv s1) by (unfold IInv, il in *; rewrite B1; lia).
+  destruct (be b4 0 =? 1)%N.
+  - set (s2 := icharge (allocn 8) s1).
+    assert (HI2 : IInv s2) by exact HI1.
+    assert (T2 : T (icost s2) = T (icost s) + 16) by (subst s2; cbn [icharge icost]; rewrite T_alloc, C1; lia).
+    destruct (read_full_spec s2 HI2) as [r2 [s3 [E3 [B3 [C3 [P3 Q3]]]]]]. rewrite E3.
+    change (ip s2) with (ip s1) in *. change (il s2) with (il s1) in *.
+    assert (L13 : il s1 = il s) by (unfold il; rewrite B1; reflexivity).
+    assert (B31 : ibuf s3 = ibuf s) by (rewrite B3; exact B1).
+    destruct r2 as [buf2| |].
+    + destruct (be buf2 0 <? 16)%N.
+      * eexists _, _. split; [reflexivity|]. rewrite C3. repeat split; try exact I; try assumption; try lia; intros; discriminate.
+      * eexists _, _. split; [reflexivity|]. rewrite C3. split; [exact I|]. split; [assumption|]. split; [lia|]. split; [lia|].
+        intros h Hh. inversion Hh; subst. cbn. split; [lia|right; reflexivity].
+    + eexists _, _. split; [reflexivity|]. rewrite C3. repeat split; try exact I; try assumption; try lia; intros; discriminate.
+    + eexists _, _. split; [reflexivity|]. rewrite C3. repeat split; try exact I; try assumption; try lia; intros; discriminate.
+  - destruct (be b4 0 =? 0)%N.
+    { eexists _, _. split; [reflexivity|]. rewrite C1. repeat split; try exact I; try assumption; try lia; intros; discriminate. }
+    destruct (be b4 0 <? 8)%N.
+    { eexists _, _. split; [reflexivity|]. rewrite C1. repeat split; try exact I; try assumption; try lia; intros; discriminate. }
+    eexists _, _. split; [reflexivity|]. rewrite C1. split; [exact I|]. split; [assumption|]. split; [lia|]. split; [lia|].
+    intros h Hh. inversion Hh; subst. cbn. split; [lia|left; reflexivity].
+Qed.
+
+Lemma read_limited_spec n s : IInv s ->
+  exists data s', read_limited n s = (data, s') /\ ibuf s' = ibuf s /\ ip s <= ip s' <= il s /\
+    zlen data = ip s' - ip s /\ T (icost s') = T (icost s) + (ip s' - ip s).
+Proof.
+  intros [H1 H2]. unfold read_limited. destruct (n <=? 0) eqn:E.
+  { eexists _, _. split; [reflexivity|]. unfold zlen. cbn. repeat split; lia. }
+  eexists _, _. split; [reflexivity|]. unfold ip, il, iavail, zlen in *. cbn [ibuf ipos icost].
+  rewrite T_alloc. rewrite firstn_length, skipn_length. unfold lenN in *. repeat split; lia.
+Qed.
+
+Section RD.
+Variable ld : leafdec.
+Hypothesis LD : leaf_ok ld.
+
+Definition K : Z := 6.
+Definition rbox_post (s : ist) (r : res bout) (s' : ist) : Prop :=
+  ibuf s' = ibuf s /\ ip s <= ip s' <= il s /\
+  T (icost s') <= T (icost s) + K * (ip s' - ip s) + 18 /\
+  (forall t, r = Ok (BBox t) -> ip s + 8 <= ip s' /\ T (icost s') <= T (icost s) + K * (ip s' - ip s) - 2) /\
+  (r = Ok BEof -> T (icost s') <= T (icost s) + 17).
+Definition rkids_post (s : ist) (r : res (list tree)) (s' : ist) : Prop :=
+  ibuf s' = ibuf s /\ ip s <= ip s' <= il s /\
+  T (icost s') <= T (icost s) + K * (ip s' - ip s) + 19 /\
+  (forall l, r = Ok l -> T (icost s') <= T (icost s) + K * (ip s' - ip s) + 18).
+Definition irem (s : ist) : Z := il s - ip s.
+
+Ltac rfin := repeat match goal with x := _ |- _ => subst x end;
+  unfold rbox_post, rkids_post, K, IInv, irem in *; cbn [icharge ibuf ipos icost] in *;
+  repeat split; try congruence; try lia; try (intros; discriminate).
+
+Lemma r_loops : forall fuel,
+  (forall sp s, IInv s ->
+     exists r s', dec_box_r ld fuel sp s = (r, s') /\ r <> Panic /\ (irem s < Z.of_nat fuel -> r <> OutOfFuel) /\
+                  rbox_post s r s') /\
+  (forall pos endPos acc s, IInv s ->
+     exists r s', children_r ld fuel pos endPos acc s = (r, s') /\ r <> Panic /\
+                  (irem s + 1 < Z.of_nat fuel -> r <> OutOfFuel) /\ rkids_post s r s').
+Proof.
+  induction fuel as [|f [IHb IHk]].
+  { split; intros.
+    - eexists _, _. split; [reflexivity|]. split; [discriminate|].
+      split; [intros Hf; exfalso; unfold irem, IInv in *; lia|]. rfin.
+    - eexists _, _. split; [reflexivity|]. split; [discriminate|].
+      split; [intros Hf; exfalso; unfold irem, IInv in *; lia|]. rfin. }
+  split.
+  - intros sp s0 HI. cbn [dec_box_r]. fold (children_r ld). 
+    set (s := icharge (tick 1) s0).
+    assert (HIs : IInv s) by exact HI.
+    assert (Ts : T (icost s) = T (icost s0) + 1) by (subst s; cbn [icharge icost]; rewrite T_tick; lia).
+    destruct (decode_header_spec s HIs) as [rh [s1 [Eh [NPh [B1 [P1 [C1 Q1]]]]]]]. rewrite Eh.
+    change (ip s) with (ip s0) in *. change (il s) with (il s0) in *. change (ibuf s) with (ibuf s0) in *.
+    assert (L1 : il s1 = il s0) by (unfold il; rewrite B1; reflexivity).
+    assert (HI1 : IInv s1) by (unfold IInv in *; lia).
+    destruct rh as [[|h]| | |]; try contradiction.
+    { eexists _, _. split; [reflexivity|]. split; [discriminate|]. split; [discriminate|]. clear Eh. rfin. }
+    2:{ eexists _, _. split; [reflexivity|]. split; [discriminate|]. split; [discriminate|]. clear Eh. rfin. }
+    destruct (Q1 h eq_refl) as [Q1a Q1b]. clear Q1 Eh.
+    destruct (ld_kind ld (hname h)).
+    + destruct (leaf_r_ok ld LD h s1) as [rl [s2 [El [NPl [B2 [P2 C2]]]]]]; [unfold IInv, ip, il in *; lia|]. rewrite El.
+      assert (P2' : ip s1 <= ip s2 <= il s1) by (unfold ip, il; lia).
+      assert (C2' : T (icost s2) <= T (icost s1) + (ip s2 - ip s1) + 1) by (unfold ip; lia).
+      clear P2 C2 El.
+      destruct rl; try contradiction.
+      * eexists _, _. split; [reflexivity|]. split; [discriminate|]. split; [discriminate|]. rfin.
+      * eexists _, _. split; [reflexivity|]. split; [discriminate|]. split; [discriminate|]. rfin.
+    + set (s1' := icharge (allocn 8) s1).
+      assert (T1 : T (icost s1') = T (icost s1) + 8) by (subst s1'; cbn [icharge icost]; rewrite T_alloc; lia).
+      assert (HI1' : IInv s1') by exact HI1.
+      destruct (IHk (addu64 sp 8) (addu64 sp (hsize h)) [] s1' HI1') as [rk [s2 [Ek [NPk [Fk [B2 [P2 [C2 Q2]]]]]]]]. rewrite Ek.
+      change (ip s1') with (ip s1) in *. change (il s1') with (il s1) in *. change (ibuf s1') with (ibuf s1) in *.
+      assert (HF : irem s0 < Z.of_nat (S f) -> irem s1' + 1 < Z.of_nat f).
+      { unfold irem. change (ip s1') with (ip s1). change (il s1') with (il s1). lia. }
+      clear Ek.
+      destruct rk; try contradiction.
+      * specialize (Q2 _ eq_refl).
+        eexists _, _. split; [reflexivity|]. split; [discriminate|]. split; [discriminate|]. rfin.
+      * eexists _, _. split; [reflexivity|]. split; [discriminate|]. split; [discriminate|]. rfin.
+      * eexists _, _. split; [reflexivity|]. split; [discriminate|].
+        split; [intros Hf; exfalso; apply (Fk (HF Hf)); reflexivity|]. rfin.
+    + destruct (read_limited_spec (payload_len h) s1 HI1) as [data [s2 [El [B2 [P2 [L2 C2]]]]]]. rewrite El.
+      destruct (negb (zlen data =? payload_len h)).
+      { eexists _, _. split; [reflexivity|]. split; [discriminate|]. split; [discriminate|]. clear El. rfin. }
+      set (ss := mkS (rnew data) (allocn 8 (icost s2))).
+      assert (HIss : Inv (sr ss)).
+      { unfold Inv, rlen. change (rbuf (sr ss)) with data. change (rpos (sr ss)) with 0.
+        assert (0 <= zlen data) by (unfold zlen; lia). unfold IInv, ip, il in *. lia. }
+      destruct (sr_loops ld LD f) as [_ SK].
+      destruct (SK (addu64 sp 8) (addu64 sp 8) (addu64 sp (hsize h)) 0 [] ss HIss)
+        as [rk [ss' [Ek [NPk [Fk [I3 [B3 [P3 C3]]]]]]]]. rewrite Ek.
+      assert (Tss : T (scost ss) = T (icost s2) + 8) by (subst ss; cbn [scost]; rewrite T_alloc; lia).
+      assert (Rss : rpos (sr ss') <= zlen data).
+      { unfold Inv, rlen in I3. rewrite B3 in I3. change (rbuf (sr ss)) with data in I3. lia. }
+      assert (R0 : rpos (sr ss) = 0) by reflexivity.
+      assert (HF : irem s0 < Z.of_nat (S f) -> rem ss + 1 < Z.of_nat f).
+      { unfold irem, rem, rlen. change (rbuf (sr ss)) with data. change (rpos (sr ss)) with 0. unfold IInv, ip, il in *. lia. }
+      clear Ek El.
+      destruct rk; try contradiction.
+      * eexists _, _. split; [reflexivity|]. split; [discriminate|]. split; [discriminate|].
+        unfold rbox_post, K, ip, il in *. cbn [ibuf ipos icost]. repeat split; try congruence; try lia.
+      * eexists _, _. split; [reflexivity|]. split; [discriminate|]. split; [discriminate|].
+        unfold rbox_post, K, ip, il in *. cbn [ibuf ipos icost]. repeat split; try congruence; try lia; intros; discriminate.
+      * eexists _, _. split; [reflexivity|]. split; [discriminate|].
+        split; [intros Hf; exfalso; apply (Fk (HF Hf)); reflexivity|].
+        unfold rbox_post, K, ip, il in *. cbn [ibuf ipos icost]. repeat split; try congruence; try lia; intros; discriminate.
+  - intros pos endPos acc s HI. cbn [children_r]. fold (dec_box_r ld). fold (children_r ld).
+    destruct (pos =? endPos)%N.
+    { eexists _, _. split; [reflexivity|]. split; [discriminate|]. split; [discriminate|]. rfin. }
+    destruct (endPos <? pos)%N.
+    { eexists _, _. split; [reflexivity|]. split; [discriminate|]. split; [discriminate|]. rfin. }
+    set (s0 := icharge (tick 1) s).
+    assert (T0 : T (icost s0) = T (icost s) + 1) by (subst s0; cbn [icharge icost]; rewrite T_tick; lia).
+    assert (HI0 : IInv s0) by exact HI.
+    destruct (IHb pos s0 HI0) as [rb [s1 [Eb [NPb [Fb [B1 [P1 [C1 [Q1 QE]]]]]]]]]. rewrite Eb.
+    change (ip s0) with (ip s) in *. change (il s0) with (il s) in *. change (ibuf s0) with (ibuf s) in *.
+    assert (R0 : irem s0 = irem s) by reflexivity.
+    assert (L1 : il s1 = il s) by (unfold il; rewrite B1; reflexivity).
+    clear Eb.
+    destruct rb as [[|child]| | |]; try contradiction.
+    + specialize (QE eq_refl). eexists _, _. split; [reflexivity|]. split; [discriminate|]. split; [discriminate|]. rfin.
+    + destruct (Q1 child eq_refl) as [Q1a Q1b]. clear Q1.
+      set (s2 := icharge (allocn 1) s1).
+      assert (T2 : T (icost s2) = T (icost s1) + 1) by (subst s2; cbn [icharge icost]; rewrite T_alloc; lia).
+      assert (HI2 : IInv s2) by (unfold IInv in *; change (ip s2) with (ip s1); change (il s2) with (il s1); lia).
+      destruct (IHk (addu64 pos (tsize child)) endPos (child :: acc) s2 HI2) as [rk [s3 [Ek [NPk [Fk [B3 [P3 [C3 Q3]]]]]]]]. rewrite Ek.
+      change (ip s2) with (ip s1) in *. change (il s2) with (il s1) in *. change (ibuf s2) with (ibuf s1) in *.
+      assert (R2 : irem s2 + 8 <= irem s) by (unfold irem; change (ip s2) with (ip s1); change (il s2) with (il s1); lia).
+      clear Ek.
+      eexists _, _. split; [reflexivity|]. split; [assumption|].
+      split; [intros Hf; apply Fk; lia|].
+      unfold rkids_post, K in *. repeat split; try congruence; try lia.
+    + eexists _, _. split; [reflexivity|]. split; [discriminate|]. split; [discriminate|]. rfin.
+    + eexists _, _. split; [reflexivity|]. split; [discriminate|].
+      split; [intros Hf; exfalso; apply Fb; [lia|reflexivity]|]. rfin.
+Qed.
+
+End RD.
+
+(* ---------------------------------------------------------------- the concrete leaves satisfy the contract *)
+Lemma read_bytes_spec n s : Inv s ->
+  exists v s', read_bytes n s = Ok (v, s') /\ Inv s' /\ rbuf s' = rbuf s /\ rpos s <= rpos s'.
+Proof.
+  intros HI. unfold read_bytes.
+  destruct (n <? 0) eqn:En. { eexists _, _. split; [reflexivity|]. cbn. repeat split; try apply HI; lia. }
+  destruct (rerr s). { eexists _, _. split; [reflexivity|]. repeat split; try apply HI; lia. }
+  destruct (rpos s >? rlen s - n) eqn:E.
+  { eexists _, _. split; [reflexivity|]. cbn. repeat split; try apply HI; lia. }
+  pose proof HI as [HI1 HI2].
+  destruct (gslice_ok (rbuf s) (rpos s) (rpos s + n)) as [l Hl]; try (unfold rlen in *; lia).
+  rewrite Hl. cbn [rbind]. eexists _, _. split; [reflexivity|].
+  unfold Inv, with_pos, rlen in *. cbn. repeat split; try lia; assumption.
+Qed.
+
+Lemma std_leaves_ok : leaf_ok std_leaves.
+Proof.
+  constructor.
+  - intros h s HI. cbn [ld_sr std_leaves]. unfold std_sr.
+    destruct (read_bytes_spec (payload_len h) (sr s) HI) as [body [r1 [E [I1 [B1 P1]]]]]. rewrite E.
+    destruct (eqb_name (hname h) name_mdat).
+    { eexists _, _. split; [reflexivity|]. cbn. repeat split; try apply I1; try assumption; lia. }
+    destruct (rerr r1).
+    { eexists _, _. split; [reflexivity|]. cbn. repeat split; try apply I1; try assumption; lia. }
+    destruct (eqb_name (hname h) name_free || eqb_name (hname h) name_skip);
+      eexists _, _; (split; [reflexivity|]); cbn; repeat split; try apply I1; try assumption; lia.
+  - intros h s HI. cbn [ld_r std_leaves]. unfold std_r, read_box_body.
+    destruct (hlen h =? hsize h)%N.
+    { destruct (eqb_name (hname h) name_mdat); [|destruct (eqb_name (hname h) name_free || eqb_name (hname h) name_skip)];
+        eexists _, _; (split; [reflexivity|]); cbn; repeat split; lia. }
+    unfold read_limited.
+    destruct (int_of_u64 (subu64 (hsize h) (hlen h)) <=? 0) eqn:En.
+    { destruct (zlen (@nil N) =? int_of_u64 (subu64 (hsize h) (hlen h)));
+        [destruct (eqb_name (hname h) name_mdat); [|destruct (eqb_name (hname h) name_free || eqb_name (hname h) name_skip)]|];
+        eexists _, _; (split; [reflexivity|]); cbn; repeat split; lia. }
+    set (k := N.min (Z.to_N (int_of_u64 (subu64 (hsize h) (hlen h)))) (iavail s)).
+    assert (Hk : (k <= lenN (ibuf s) - ipos s)%N) by (subst k; unfold iavail; lia).
+    match goal with |- context [zlen ?d =? ?x] => destruct (zlen d =? x) end;
+      [destruct (eqb_name (hname h) name_mdat); [|destruct (eqb_name (hname h) name_free || eqb_name (hname h) name_skip)]|];
+      eexists _, _; (split; [reflexivity|]); cbn [np ibuf ipos icost]; rewrite ?T_alloc; repeat split; try exact I; lia.
+Qed.
+
+(* ---------------------------------------------------------------- top-level statements *)
+Definition small (bs : list N) : bool := zlen bs <? two63.     (* every Go slice *)
+
+Theorem container_total_sr : forall ld, leaf_ok ld -> forall bs, small bs = true ->
+  exists r s', box_sr ld bs = (r, s') /\ (r = Err \/ exists t, r = Ok t) /\
+               (tot (scost s') <= 2 * lenN bs + 2)%N.
+Proof.
+  intros ld LD bs Hs. unfold box_sr, small in *.
+  destruct (sr_loops ld LD (S (length bs))) as [HB _].
+  assert (HI : Inv (sr (snew bs))) by (unfold Inv, rlen; cbn; unfold zlen in *; lia).
+  destruct (HB 0%N (snew bs) HI) as [r [s' [E [NP [NF [I1 [B1 [P1 [C1 Q1]]]]]]]]].
+  exists r, s'. split; [exact E|].
+  assert (NF' : r <> OutOfFuel) by (apply NF; unfold rem, rlen; cbn; unfold zlen; lia).
+  split; [destruct r; [right; eauto|left; reflexivity|contradiction|contradiction]|].
+  unfold Inv, rlen in I1. rewrite B1 in I1. cbn [snew sr rnew rbuf rpos scost] in *.
+  unfold T, tot in *. cbn [cost0 ticks alloc] in *. unfold zlen, lenN in *. lia.
+Qed.
+
+Theorem container_total_r : forall ld, leaf_ok ld -> forall bs, small bs = true ->
+  exists r s', box_r ld bs = (r, s') /\ (r = Err \/ r = Ok BEof \/ exists t, r = Ok (BBox t)) /\
+               (tot (icost s') <= 6 * lenN bs + 18)%N.
+Proof.
+  intros ld LD bs Hs. unfold box_r, small in *.
+  destruct (r_loops ld LD (S (length bs))) as [HB _].
+  assert (HI : IInv (inew bs)) by (unfold IInv, ip, il; cbn; unfold zlen, lenN in *; lia).
+  destruct (HB 0%N (inew bs) HI) as [r [s' [E [NP [NF [B1 [P1 [C1 Q1]]]]]]]].
+  exists r, s'. split; [exact E|].
+  assert (NF' : r <> OutOfFuel) by (apply NF; unfold irem, ip, il; cbn; unfold lenN; lia).
+  split; [destruct r as [[|t]| | |]; [right; left; reflexivity|right; right; eauto|left; reflexivity|contradiction|contradiction]|].
+  unfold K, ip, il, T, tot in *. cbn [inew ibuf ipos icost cost0 ticks alloc] in *. unfold lenN in *. lia.
+Qed.
+
+(* both header decoders on every state of their byte source *)
+Theorem header_total :
+  (forall s, IInv s -> exists r s', decode_header s = (r, s') /\ np r /\ T (icost s') <= T (icost s) + 16) /\
+  (forall s, Inv (sr s) -> exists r s', decode_header_sr s = (r, s') /\ np r /\ Inv (sr s') /\ scost s' = scost s).
+Proof.
+  split.
+  - intros s HI. destruct (decode_header_spec s HI) as [r [s' [E [NP [_ [_ [C _]]]]]]]. eauto.
+  - intros s HI. destruct (decode_header_sr_spec s HI) as [r [s' [E [NP [I1 [_ [_ [C _]]]]]]]]. eauto 6.
+Qed.
